@@ -18,7 +18,9 @@ RB_RULE = ("; engine B: the unmodified ninja executable with gated helper comman
            "the oldest running command either untouched or having already overwritten its outputs (not for SIGKILL: the property "
            "assumes atomic replacement there), and while ninja is outside ppoll() with a descriptor ready when it returns: "
            "exit 130, lock file gone, no command process survives, overwritten outputs removed; the next build succeeds, "
-           "equals a clean build and converges")
+           "equals a clean build and converges; a command that is slow to die, the signal sent a second time; a console command "
+           "that catches the signal and exits 0 while ninja is stopped, so that its SIGCHLD and ninja's own signal are both "
+           "pending at ninja's next step: exit 130 and the next build runs the command again")
 
 
 def fams(tier):
